@@ -48,3 +48,6 @@ pub open spec fn pieces_bytes(ps: Seq<VPiece>) -> Seq<u8>
 pub fn v_format(ps: &[VPiece]) -> (r: Vec<u8>)
     ensures r@ == pieces_bytes(ps@)
 { unimplemented!() }
+
+// R18: std::cmp::min on usize
+pub fn v_min_usize(a: usize, b: usize) -> (r: usize) ensures r == (if a <= b { a } else { b }) { if a <= b { a } else { b } }
